@@ -323,6 +323,19 @@ class Fn:
             raise Unsupported('integer type expected, got %r' % (t,))
         return t[1]
 
+    @staticmethod
+    def fn_designator(n):
+        while n['kind'] == 'ParenExpr':
+            n = n['inner'][0]
+        return (n['kind'] == 'ImplicitCastExpr' and n.get('castKind') == 'FunctionToPointerDecay'
+                and n['inner'][0]['kind'] == 'DeclRefExpr' and n['inner'][0].get('referencedDecl', {}).get('kind') == 'FunctionDecl')
+
+    @staticmethod
+    def null_const(n):
+        while n['kind'] in ('ParenExpr', 'ImplicitCastExpr') and n.get('castKind', 'NullToPointer') in ('NullToPointer', 'IntegralCast'):
+            n = n['inner'][0]
+        return n['kind'] == 'IntegerLiteral' and n.get('value') == '0'
+
     BIN = {'+': 'OAdd', '-': 'OSub', '*': 'OMul', '/': 'ODiv', '%': 'ORem', '&': 'OAnd', '|': 'OOr', '^': 'OXor',
            '<<': 'OShl', '>>': 'OShr', '<': 'OLt', '<=': 'OLe', '>': 'OGt', '>=': 'OGe', '==': 'OEq', '!=': 'ONe'}
 
@@ -439,6 +452,10 @@ class Fn:
                 if lv[2][0] == 'struct':
                     return self.struct_copy(lv, b)
                 return self.assign(lv, self.rv(b))
+            if op in ('>', '!=') and self.fn_designator(a) and self.null_const(b):
+                # `f > 0` / `f != 0` on a function designator (ex.c lbuf_save: `mtime > 0` tests the function mtime, not a
+                # time stamp): the address of a function is never null
+                return '(EConst 1)'
             return self.binop(op, n, a, b, self.rv(a), self.rv(b))
         if k == 'CompoundAssignOperator':
             op = n['opcode'][:-1]
